@@ -848,12 +848,25 @@ class Machine:
         ops = []
         for _ in range(st.draw(1, 4, "n-maps")):
             k = st.pick(("shift_x", "shift_y", "scale_x", "scale_y"), "map")
+            # adaptive strategies: integer shifts and power-of-two scales keep lattice data exact at ANY magnitude, so the
+            # window choice (a discontinuous function of ratios of differences) must be the same in both orders - also a
+            # million away from the origin, or at 1e-9 of the unit (where an absolute or relative tolerance would bite)
+            far = adaptive and st.coin(1, 3, "far-map")
             if k.startswith("shift"):
-                ops.append((k, {"shift": float(st.draw(-16, 16, "shift")) if adaptive else self.num("shift")}))
+                if far:
+                    ops.append((k, {"shift": st.pick((1048576.0, -3145728.0, 16777216.0, -1048576.0), "far-shift")}))
+                else:
+                    ops.append((k, {"shift": float(st.draw(-16, 16, "shift")) if adaptive else self.num("shift")}))
             elif k == "scale_x":
-                ops.append((k, {"scale": st.pick((2.0, 0.5, 4.0) if adaptive else (2.0, 0.5, 1.7, 0.3, 3.0), "scale")}))
+                if far:
+                    ops.append((k, {"scale": st.pick((2.0 ** -20, 2.0 ** 20, 2.0 ** -30), "far-scale")}))
+                else:
+                    ops.append((k, {"scale": st.pick((2.0, 0.5, 4.0) if adaptive else (2.0, 0.5, 1.7, 0.3, 3.0), "scale")}))
             else:
-                ops.append((k, {"scale": st.pick((2.0, -1.0, 0.5, -4.0) if adaptive else (2.0, -1.0, 0.3, 1.7, -2.5), "scale")}))
+                if far:
+                    ops.append((k, {"scale": st.pick((2.0 ** -30, -2.0 ** 20, 2.0 ** -20, 2.0 ** 30), "far-scale")}))
+                else:
+                    ops.append((k, {"scale": st.pick((2.0, -1.0, 0.5, -4.0) if adaptive else (2.0, -1.0, 0.3, 1.7, -2.5), "scale")}))
         target = st.pick(("trapezoid", "rectangle"), "target")
         m = ("integral_match", {"target": target, "reference": "rectangle"})
         # in the other order the maps act on the n-times finer grid: it must be representable wherever they take it
